@@ -254,6 +254,70 @@ def config_inventory(
     cover("built")
 
 
+FW_LISTS = ["internal_inbound_acl", "internal_outbound_acl", "dmz_inbound_acl", "dmz_outbound_acl", "external_inbound_acl", "external_outbound_acl"]
+
+
+def firewall_inventory(b0: bool, b1: bool, b2: bool, b3: bool, b4: bool, b5: bool, has_acl: bool, dmz: bool, pos_i: int, route: bool):
+    """A scenario with a firewall that declares any subset of its six ACL lists: exactly the declared rules are built,
+    in the declared list and position; undeclared lists hold nothing; loading never raises."""
+    from primaite.game.game import PrimaiteGame
+    from primaite.utils.validation.port import PORT_LOOKUP
+
+    assume(rng(pos_i, 0, 2))
+    pos = pick([0, 7, 22], pos_i)  # odd lists use pos+1, so 23 (the last slot) is covered
+    present = [bool(x) for x in (b0, b1, b2, b3, b4, b5)]
+    with concrete():
+        quiet()
+        fw = {
+            "type": "firewall", "hostname": "fw_1", "start_up_duration": 0,
+            "ports": {
+                "external_port": {"ip_address": "10.0.0.1", "subnet_mask": "255.255.255.0"},
+                "internal_port": {"ip_address": "192.168.1.1", "subnet_mask": "255.255.255.0"},
+            },
+        }
+        if dmz:
+            fw["ports"]["dmz_port"] = {"ip_address": "172.16.0.1", "subnet_mask": "255.255.255.0"}
+        declared = {}
+        if has_acl:
+            fw["acl"] = {}
+            for i, name in enumerate(FW_LISTS):
+                if present[i]:
+                    rule = {"action": "DENY" if i % 2 else "PERMIT", "protocol": ["TCP", "UDP", "ICMP"][i % 3], "src_ip": f"10.9.{i}.1"}
+                    if i % 2 == 0:
+                        rule["dst_port"] = "HTTP"
+                    fw["acl"][name] = {pos + (i % 2): rule}
+                    declared[name] = {pos + (i % 2): rule}
+        if route:
+            fw["routes"] = [{"address": "10.5.0.0", "subnet_mask": "255.255.0.0", "next_hop_ip_address": "10.0.0.2"}]
+            fw["default_route"] = {"next_hop_ip_address": "10.0.0.2"}
+        cfg = mini_scenario("switched", with_green=False, with_red=False)
+        cfg["simulation"]["network"]["nodes"].append(fw)
+        cfg["simulation"]["network"]["links"].append({"endpoint_a_hostname": "fw_1", "endpoint_a_port": 2, "endpoint_b_hostname": "switch_1", "endpoint_b_port": 4, "bandwidth": 100})
+        try:
+            game = PrimaiteGame.from_config(copy.deepcopy(cfg))
+        except Exception as e:
+            fail(f"from_config raised {type(e).__name__}: {str(e)[:200]} for a firewall declaring acl sections {sorted(declared)}")
+        node = game.simulation.network.get_node_by_hostname("fw_1")
+        for i, name in enumerate(FW_LISTS):
+            acl = getattr(node, name)
+            built = {p: r for p, r in enumerate(acl.acl) if r is not None}
+            want = declared.get(name, {})
+            check(set(built) == set(want), lambda: f"firewall list {name}: rules at positions {sorted(built)}, scenario declares {sorted(want)}")
+            for p_, w in want.items():
+                r = built[p_]
+                got = (r.action.name, r.protocol, None if r.src_ip_address is None else str(r.src_ip_address), r.dst_port)
+                exp = (w["action"], w["protocol"].lower(), w["src_ip"], PORT_LOOKUP[w["dst_port"]] if "dst_port" in w else None)
+                check(got == exp, lambda: f"firewall list {name} position {p_}: built {got}, scenario says {exp}")
+        check(str(node.external_port.ip_address) == "10.0.0.1" and str(node.internal_port.ip_address) == "192.168.1.1", "firewall port addresses differ")
+        if dmz:
+            check(str(node.dmz_port.ip_address) == "172.16.0.1", "firewall dmz port address differs")
+        got_routes = sorted((str(r.address), str(r.next_hop_ip_address)) for r in node.route_table.routes)
+        check(got_routes == ([("10.5.0.0", "10.0.0.2")] if route else []), "firewall routes differ")
+        dr = node.route_table.default_route
+        check((None if dr is None else str(dr.next_hop_ip_address)) == ("10.0.0.2" if route else None), "firewall default route differs")
+    cover("fw_built")
+
+
 def shipped_inventory(fi: int):
     """Every shipped scenario file with an RL agent is run through the same inventory comparison (validates the
     reference inventory and checks the shipped files themselves)."""
@@ -297,6 +361,13 @@ HARNESSES = {
         "thorough": [{"fixed": {"b_users": u, "b_files": f, "b_off": o, "perm": p}, "timeout": 1500} for u in (False, True) for f in (False, True) for o in (False, True) for p in (False, True)],
         "cover": ["built", "perm"],
         "bounds": {"quick": "11 presence bits (4 coupled pairwise per job), 3 ACL positions (0, 11, 23), 3 durations, 2 bandwidths (one fractional), key-order permutation", "thorough": "all 2^11 presence combinations"},
+    },
+    "firewall_inventory": {
+        "fn": firewall_inventory,
+        "quick": [{"fixed": {"dmz": d}, "timeout": 280} for d in (True, False)],
+        "thorough": [{"fixed": {"dmz": d, "route": r}, "timeout": 900} for d in (True, False) for r in (True, False)],
+        "cover": ["fw_built"],
+        "bounds": "every subset of the six ACL sections (or no acl section), 3 rule positions incl. 0 and 23, with/without DMZ port, static + default route",
     },
     "shipped_inventory": {
         "fn": shipped_inventory,
